@@ -13,3 +13,5 @@ CONSTANTS NP = 3
           GNormal = {1, 2, 3, 4, 5, 6}
           GIgnored = {7, 8}
           GBig = {2, 5}
+          GKindSel = "all"
+          GBsInit = {}
